@@ -267,7 +267,7 @@ Qed.
 (* BlockListCollectMoves of one context *)
 Lemma collect_list_np v dc p :
   VamInv c v -> MM ms0 v [] -> Defrag.c_moves (dc_ctx dc) = [] -> PassProofs.pass_running p ->
-  VamGran.GV v ->
+  VamGran.GV c v ->
   projectable v (dc_lr dc) -> (Defrag.c_algo (dc_ctx dc) = 1 \/ Defrag.c_algo (dc_ctx dc) = 2) -> pa_ok v ->
   npu (snd (collect_list c v dc p)).
 Proof.
@@ -395,7 +395,7 @@ Definition dpass_inv (v : vam) (rn : dfrun) : Prop :=
 
 Lemma pass_loop_np fuel : forall v run p,
   VamInv c v -> MM ms0 v [] -> run_idle run -> 0 <= dr_max_bytes run -> 0 <= dr_max_allocs run -> PassProofs.pass_running p ->
-  VamGran.GV v -> dpass_inv v run ->
+  VamGran.GV c v -> dpass_inv v run ->
   (1 <= fuel)%nat -> (0 <= dr_progress run -> (length (dr_ctxs run) - Z.to_nat (dr_progress run) < fuel)%nat) ->
   npu (snd (pass_loop c fuel v run p)).
 Proof.
@@ -435,7 +435,7 @@ Proof.
 Qed.
 
 Lemma defrag_pass_np v run :
-  VamInv c v -> MM ms0 v [] -> run_ok v run -> run_idle run -> VamGran.GV v -> dpass_inv v run ->
+  VamInv c v -> MM ms0 v [] -> run_ok v run -> run_idle run -> VamGran.GV c v -> dpass_inv v run ->
   npu (snd (defrag_pass c v run)).
 Proof.
   clear G. intros HI HM (Hb & Ha & _) Hidle HG HD. unfold defrag_pass.
@@ -473,7 +473,7 @@ Let Hmax := ca_max c Ha.
 Let Hlarge := ca_large c Ha.
 
 Lemma dexec_np ms0 G v run o :
-  VamBalStep.VamInvB c ms0 G v [] [] -> VamGran.GV v -> drun_ok v run -> dop_ok v run o -> tmps_unmapped G run -> dop_bal G run o -> dop_live v run o ->
+  VamBalStep.VamInvB c ms0 G v [] [] -> VamGran.GV c v -> drun_ok v run -> dop_ok v run o -> tmps_unmapped G run -> dop_bal G run o -> dop_live v run o ->
   npu (snd (fst (dexec c v run o))).
 Proof using Ha.
   intros HI HV Hr Hok Htm Hbal Hlive. pose proof (va_s _ _ _ _ (VamDefragBal.vb_a c ms0 G _ HI)) as HU.
@@ -499,7 +499,7 @@ Qed.
 
 (* one defragmentation call in the domain, any fault oracle *)
 Theorem dstep_np G v run o f :
-  VamAcctStep.VamInvA c v [] [] -> MapInv v [] -> BInv v G [] -> VamGran.GV v -> drun_ok v run -> dop_ok v run o -> tmps_unmapped G run -> dop_bal G run o ->
+  VamAcctStep.VamInvA c v [] [] -> MapInv v [] -> BInv v G [] -> VamGran.GV c v -> drun_ok v run -> dop_ok v run o -> tmps_unmapped G run -> dop_bal G run o ->
   dop_live v run o ->
   let '(v', run', r, calls, dr) := dstep c v run o f in r <> RPanic /\ r <> RStuck.
 Proof using Ha.
@@ -516,7 +516,7 @@ Proof using Ha.
   assert (Hok0 : dop_ok v0 run o) by (destruct o; cbn in *; auto).
   assert (Hlive0 : dop_live v0 run o).
   { destruct o; exact Hlive. }
-  pose proof (dexec_np ms0 G v0 run o I0 (VamGran.GR_set_m v _ HV) Hr0 Hok0 Htm Hbal Hlive0) as E.
+  pose proof (dexec_np ms0 G v0 run o I0 (VamGran.GR_set_m c v _ HV) Hr0 Hok0 Htm Hbal Hlive0) as E.
   destruct (dexec c v0 run o) as (((v1 & run1) & r) & dr) eqn:Ed. cbn [fst snd] in E. destruct E as (E1 & E2).
   split; destruct r as [[]|code| |]; cbn; congruence.
 Qed.
